@@ -262,9 +262,21 @@ func rapidHistoryOpts(t *rapid.T, prop string, cfg world.Cfg, weights map[string
 	if opts.Overwrite || opts.TapeLikeWriter {
 		params = hist.Params{"overwrite": opts.Overwrite, "tape_like_writer": opts.TapeLikeWriter}
 	}
+	// a quarter of the cases of checks that know the step swap the index for one rebuilt from
+	// the tape somewhere in the middle (a rebuilt index spells names relative to the root)
+	rebuildAt := -1
+	if weights["rebuild"] > 0 && n >= 2 && rapid.IntRange(0, 3).Draw(t, "rebuild-in-the-middle") == 0 {
+		rebuildAt = rapid.IntRange(1, n-1).Draw(t, "rebuild-at")
+		live.S.Class("rebuild_in_the_middle")
+	}
 	runCase(t, prop, cfg, params, orc, opts, func(x *hctx, i int) (hist.Step, bool) {
 		if i >= n {
 			return hist.Step{}, false
+		}
+		if i == rebuildAt {
+			if s := (hist.Step{Op: "rebuild"}); g.Avoid == nil || g.Avoid(s, x.mr) == "" {
+				return s, true
+			}
 		}
 		return g.Draw(t, x.mr), true
 	})
